@@ -682,7 +682,9 @@ theorem execute_vm_ok {c : Ctx} {w : World} {tx : Tx} {snd rcv : Copy} {isFD : B
             · rename_i rcv' pend hpre
               split at h
               · subst h; simp at he
-              · subst h; simp at he
+              · split at h
+                · subst h; simp at he
+                · subst h; simp at he
               · subst h; simp at he
               · rename_i herr
                 split at h
